@@ -2,3 +2,4 @@ import BufrProps.C11
 import BufrProps.C10
 import BufrProps.C09
 import BufrProps.C19
+import BufrProps.C01
